@@ -1231,6 +1231,22 @@ def compose_scope(res, pid, rng, tier):
         if not ok_ or o.get("a.cfg") != cur:
             fails.append({"kind": "command line: several options together differ from the same options one after another",
                           "argv": flags, "together": o.get("a.cfg"), "one_after_another": cur, "steps": steps})
+    # the same token as sensitive word and as AS number, every step in an interpreter process of its own (as separate command-line
+    # runs are): nothing a step computed is visible to another step except through the text
+    tk = rng.choice(["65000", "64999", "4200000001"])
+    t_ = "router bgp %s\n description acme peer %s as%s-x\n neighbor 10.0.0.1 remote-as 64998\n" % (tk, tk, tk)
+    kw_w = dict(anon_pwd=False, anon_ip=False, salt="cmp", sensitive_words=["acme", tk])
+    kw_a = dict(anon_pwd=False, anon_ip=False, salt="cmp", as_numbers=[tk, "64998"])
+    kw_b = dict(kw_w, as_numbers=[tk, "64998"])
+    both, e0 = run_in_process([{"kwargs": kw_b, "text": t_, "before": []}], 0)
+    st1, e1 = run_in_process([{"kwargs": kw_w, "text": t_, "before": []}], 0)
+    st2, e2 = run_in_process([{"kwargs": kw_a, "text": st1[0], "before": []}], 0) if st1 else (None, e1)
+    res.evaluations += 3
+    if both is None or st2 is None:
+        fails.append({"kind": "anonymize_io raised", "detail": "fresh-process composition run failed", "exc": str(e0 or e1 or e2)[:300]})
+    elif both[0] != st2[0]:
+        fails.append({"kind": "the multi-feature run differs from the single-feature steps applied one after another (each step in a process of its own)",
+                      "sensitive_words": ["acme", tk], "as_numbers": [tk, "64998"], "salt": "cmp", "text": t_, "combined": both[0], "chained": st2[0]})
     return [], fails
 
 
